@@ -104,11 +104,14 @@ type c18cfg struct {
 	aCancels  bool
 	bAuto     bool
 	cutAfter  time.Duration
+	cancelAt  time.Duration
+	unregAt   time.Duration
 }
 
 func c18Body(c c18cfg) func() {
 	return func() {
 		simrt.ClearTraceHooks()
+		fakews.SetLatency(time.Millisecond)
 		a := hubx.NewNode("A", 0, 4711)
 		b := hubx.NewNode("B", 1, 4712)
 		b.App.AllowWaiting = c.bWaits
@@ -119,11 +122,21 @@ func c18Body(c c18cfg) func() {
 		if c.bTrustsA {
 			b.Hub.RegisterRemoteSKI(a.SKI)
 		}
+		// at most two connection attempts succeed at the transport level (bounds the retry loop of a denied peer)
+		fakews.SetDialFault(func(string, int) bool { return len(fakews.Links()) >= 2 })
 		a.Start()
 		b.Start()
 		if c.aCancels {
-			simrt.RunFor(2 * time.Second)
+			at := c.cancelAt
+			if at == 0 {
+				at = 2 * time.Second
+			}
+			simrt.RunFor(at)
 			a.Hub.CancelPairingWithSKI(b.SKI)
+		}
+		if c.unregAt > 0 {
+			simrt.RunFor(c.unregAt)
+			a.Hub.UnregisterRemoteSKI(b.SKI)
 		}
 		if c.cutAfter > 0 {
 			simrt.RunFor(c.cutAfter)
@@ -174,17 +187,28 @@ func c18Scenarios(r *hx.Run) []hx.Scenario {
 		{name: "pending", bTrustsA: false, bWaits: true},
 		{name: "local-cancel", bTrustsA: false, bWaits: true, aCancels: true},
 		{name: "auto-accept", bAuto: true, bWaits: true},
+		{name: "local-cancel-early", bTrustsA: false, bWaits: true, aCancels: true, cancelAt: 100 * time.Millisecond},
+		{name: "unregister-early", bTrustsA: true, bWaits: true, unregAt: 100 * time.Millisecond},
+		{name: "unregister-late", bTrustsA: true, bWaits: true, unregAt: 2 * time.Second},
 		{name: "error-cut", bTrustsA: true, bWaits: true, cutAfter: 0},
 	}
 	var out []hx.Scenario
 	for _, c := range cfgs {
-		b := simrt.B(0, 0, 0)
+		// timely: all wake orders of notification goroutines whose delays end at the same instant (created in
+		// the same burst), plus one preemption among them
+		pb := 0
 		if r.Thorough() {
-			b = simrt.B(1, 0, 0)
+			pb = 1
 		}
-		// all wake orders of the delayed notification goroutines (and, thorough, one preemption among them)
-		out = append(out, hx.Scenario{Name: "c18:" + c.name, Body: c18Body(c), Bounds: b,
-			Cfg: simrt.Config{MaxSteps: 100000, BranchOnly: []string{"HandleShipHandshakeStateUpdate"}}})
+		out = append(out, hx.Scenario{Name: "c18:timely:" + c.name, Body: c18Body(c), Bounds: simrt.B(pb, 0, 0),
+			Cfg: simrt.Config{MaxSteps: 100000, BranchOnly: []string{"HandleShipHandshakeStateUpdate"}, BranchNoStart: true}})
+		// arbitrary: up to 1 (quick) / 2 (thorough) notification goroutines wake up late by any amount
+		tb := 1
+		if r.Thorough() {
+			tb = 2
+		}
+		out = append(out, hx.Scenario{Name: "c18:late-wakeups:" + c.name, Body: c18Body(c), Bounds: simrt.B(0, tb, 0),
+			Cfg: simrt.Config{MaxSteps: 100000, ArbitraryQuiescent: true, BranchOnly: []string{"HandleShipHandshakeStateUpdate"}, BranchNoStart: true}})
 	}
 	return out
 }
@@ -231,6 +255,7 @@ func applyCause(c string, a, b *hubx.Node) {
 func c11Body(c1, c2 string, midHandshake bool, reconnect bool) func() {
 	return func() {
 		simrt.ClearTraceHooks()
+		fakews.SetLatency(time.Millisecond)
 		mon := installCloseMonitor()
 		a := hubx.NewNode("A", 0, 4711)
 		b := hubx.NewNode("B", 1, 4712)
@@ -240,12 +265,15 @@ func c11Body(c1, c2 string, midHandshake bool, reconnect bool) func() {
 		b.Start()
 		if !midHandshake {
 			simrt.RunFor(3 * time.Second)
+		} else {
+			simrt.RunFor(4 * time.Millisecond) // a few message round trips into the handshake
 		}
 		if !reconnect {
 			// keep the peers from reconnecting so that the accounting of this one connection is isolated
 			fakews.SetDialFault(func(string, int) bool { return len(fakews.Links()) >= 1 })
 		}
 		done := 0
+		simrt.Mark()
 		simrt.Go("cause1", func() { applyCause(c1, a, b); done++ })
 		if c2 != "" {
 			simrt.Go("cause2", func() { applyCause(c2, a, b); done++ })
@@ -297,6 +325,10 @@ func c11Body(c1, c2 string, midHandshake bool, reconnect bool) func() {
 	}
 }
 
+// branching is restricted to the goroutines on the closing paths, after the connection is established
+var c11cfg = simrt.Config{MaxSteps: 200000, BranchAfterMark: true,
+	BranchOnly: []string{"cause", "CloseConnection", "readShipPump", "writeShipPump", "handleState", "sendWSCloseMessage", "keepThisConnection", "setHandshakeTimer"}}
+
 func c11Scenarios(r *hx.Run) []hx.Scenario {
 	var out []hx.Scenario
 	pb := 0
@@ -304,7 +336,7 @@ func c11Scenarios(r *hx.Run) []hx.Scenario {
 		pb = 1
 	}
 	for _, c := range causes {
-		out = append(out, hx.Scenario{Name: "c11:single:" + c, Body: c11Body(c, "", false, false), Bounds: simrt.B(1, 0, 0), Cfg: simrt.Config{MaxSteps: 100000}})
+		out = append(out, hx.Scenario{Name: "c11:single:" + c, Body: c11Body(c, "", false, false), Bounds: simrt.B(1, 0, 0), Cfg: c11cfg})
 	}
 	pairs := [][2]string{{"disconnectA", "disconnectB"}, {"disconnectA", "cutLink"}, {"disconnectA", "peerEOF"}, {"unregisterA", "disconnectB"},
 		{"shutdownA", "disconnectB"}, {"disconnectB", "writeAfterPeerClose"}, {"cutLink", "writeAfterPeerClose"}, {"shutdownA", "shutdownB"}, {"unregisterA", "unregisterB"}}
@@ -319,13 +351,14 @@ func c11Scenarios(r *hx.Run) []hx.Scenario {
 		}
 	}
 	for _, p := range pairs {
-		out = append(out, hx.Scenario{Name: "c11:pair:" + p[0] + "+" + p[1], Body: c11Body(p[0], p[1], false, false), Bounds: simrt.B(pb, 0, 0), Cfg: simrt.Config{MaxSteps: 100000}})
+		out = append(out, hx.Scenario{Name: "c11:pair:" + p[0] + "+" + p[1], Body: c11Body(p[0], p[1], false, false), Bounds: simrt.B(pb, 0, 0), Cfg: c11cfg})
 	}
 	for _, c := range []string{"disconnectA", "cutLink", "cancelA", "shutdownB"} {
-		out = append(out, hx.Scenario{Name: "c11:midhandshake:" + c, Body: c11Body(c, "", true, false), Bounds: simrt.B(pb, 0, 0), Cfg: simrt.Config{MaxSteps: 100000}})
+		out = append(out, hx.Scenario{Name: "c11:midhandshake:" + c, Body: c11Body(c, "", true, false), Bounds: simrt.B(pb, 0, 0), Cfg: c11cfg})
 	}
 	for _, c := range []string{"disconnectA", "cutLink", "peerEOF"} {
-		out = append(out, hx.Scenario{Name: "c11:reconnect:" + c, Body: c11Body(c, "", false, true), Bounds: simrt.B(0, 0, 0), Cfg: simrt.Config{MaxSteps: 200000}})
+		out = append(out, hx.Scenario{Name: "c11:reconnect:" + c, Body: c11Body(c, "", false, true), Bounds: simrt.B(0, 0, 0),
+			Cfg: simrt.Config{MaxSteps: 200000, BranchAfterMark: true, BranchOnly: []string{"cause", "CloseConnection>func"}}})
 	}
 	return out
 }
